@@ -44,7 +44,8 @@ CONFIGS = collections.OrderedDict([
 
 def run(ctx):
     t_start = time.time()
-    ok, why = ctx.proof_stage("Props.C02", ["eval_correct", "closed_answer_exact", "eval_goal_fuel_sufficient"])
+    ok, why = ctx.proof_stage("Props.C02", ["eval_correct", "closed_answer_exact", "eval_goal_fuel_sufficient",
+                                            "eval_inv_false_sound", "sat_inv_clean", "sat_inv_le", "neg_inv_differ"])
     phase = {"proof": round(time.time() - t_start, 1)}
     if not ok:
         ctx.violation({"kind": "proof", "broken": why}, no_input=True)
@@ -108,6 +109,8 @@ def run(ctx):
         raise core.CheckFailure("coq evaluation failed: %s" % (failures[0],))
     stats_of = dict(zip(need, scodes[:len(need)]))
     f7q_of = dict(zip(need, scodes[len(need):]))
+    # `not` below hypotheses that mention placeholders: literal vs inversion reading (Logic/Inv.v)
+    inv_of = sc.inv_readings(ctx.work, "inv", items, [k for k, it in enumerate(items) if pg.neg_inv_shape(it.goal)], FUEL)
 
     hist = collections.Counter()
     incon = collections.Counter()
@@ -132,6 +135,28 @@ def run(ctx):
             ctx.count(cname, (it.key(), cname), nontrivial=nontrivial)
             hist["%s:%s:%s" % (cname, "T" if truth == 1 else "F", kind)] += 1
             expected = "Unique" if truth == 1 else "NoSolution"
+            nv = sc.neg_inv_verdict(inv_of[k], cname, kind) if k in inv_of else None
+            if nv == "known":
+                f = ctx.match_known(None, "NEGINV")
+                if f:
+                    ctx.known_finding(f, "%s | %s | %s" % (cname, it.goal_text, kind))
+                    ctx.cov["neg_inv_class_hits"] = ctx.cov.get("neg_inv_class_hits", 0) + 1
+                    continue
+            elif nv == "inconclusive":
+                incon["neg-inv:inversion-reading-inconclusive"] += 1
+                continue
+            elif nv == "violation" and kind.startswith("Ambig") and not within:
+                incon["%s:ambiguous-outside-limits" % cname] += 1
+                continue
+            elif nv == "violation" and kind in ("Timeout", "Abort"):
+                incon["%s:%s" % (cname, kind)] += 1
+                continue
+            elif nv == "violation":
+                d = it.describe()
+                d.update({"kind": "differs-from-inversion-reading", "config": cname, "expected": "NoSolution", "got": sx.to_sexp(ans)[:500],
+                          "relation": "neg_inv_shape goal: literal reading true, inversion reading (eval_inv_false_sound) false; chalk implements the inversion reading, so NoSolution is required here"})
+                ctx.violation(d)
+                continue
             if kind == expected:
                 if kind == "Unique" and (len(ans[2]) != 0):
                     ctx.violation(dict(it.describe(), kind="closed-goal-unique-with-substitution", config=cname))
@@ -178,6 +203,7 @@ def run(ctx):
                                      "oracle_verdicts": dict(verdicts), "outcomes": dict(hist)}
     ctx.cov["inconclusive"] = dict(incon)
     ctx.cov["inconclusive_total"] = sum(incon.values())
+    ctx.cov["neg_inv"] = {"items_with_shape": len(inv_of), "readings_differ": sum(1 for v in inv_of.values() if v[0] == 1 and v[1] == 1 and v[2] == 0)}
     phase["coq+judge"] = round(time.time() - t0, 1)
     ctx.cov["phase_s"] = phase
     ctx.cov["known_class_share"] = round(ctx.cov.get("known_class_hits", 0) / total, 4)
